@@ -194,7 +194,7 @@ CLAIMED = {
   "Real heap growth versus accounted memory is sampled (TotalAlloc under GOMEMLIMIT), not proved; the charge-site extractor of the plan is not built. Level A also checks, per allocating library call (25 templates incl. string.rep with long separators), accounted-memory growth >= size of the result (47 calls incl. gsub capture references, table/function replacements, format with many %s, concat chains, pack/unpack, coroutine stacks, table constructors from varargs); values kept alive in vararg frames / tables are accounted at >= 16 bytes each and such programs are killed under a limit; load() never lowers the accounted memory and a program of loads of comment-heavy sources plus live allocations is killed; load through reader functions with 1..9-byte pieces accounts what it buffers; the memory limit driven into every callback site is not catchable. One known finding: C06-CLOSE-IN-COROUTINE-CRASH (same root as C05-CLOSE-IN-COROUTINE-CRASH). Earlier findings (interception, cross-context release crash, double release, release race and stale inherited limit were found by this check and are repaired). An uncovered release is absorbed silently by the first context without memory limit (release_uncovered_is_absorbed).", "6/C06, 14/C06"),
  "C07": ("proof",
   "Lean 4 invariant + conservation theorems over all legal histories of the context stack and over all CallContext trees, on regenerated Remove/Merge/Dominates; level A/B correspondence on the real Runtime",
-  "Props/C07.lean (34 theorems): remove_le_self / remove_zero / remove_antitone / remove_remove (laws of the regenerated saturating Remove: splitting a charge or charging more never yields more remaining budget), push_hard_le_remaining, push_hard_is_exact_meet, merge_greatest_lower_bound / merge_comm / merge_idem / merge_assoc / dominates_merge_iff (the regenerated Merge is the lattice meet of limit vectors with 0 = unlimited as top, and a counter vector is dominated by the merge iff by both arguments), push_soft_le_hard, push_flags_superset, push_implied_flags, inv_initial/inv_preserved/inv_reachable (no hypothesis on amounts), used_lt_hard, "
+  "Props/C07.lean (38 theorems): smallerLimit_irrefl / smallerLimit_asymm / smallerLimit_trans / unlimited_is_top (the regenerated smallerLimit is a strict order with 0 = unlimited as greatest element), remove_le_self / remove_zero / remove_antitone / remove_remove (laws of the regenerated saturating Remove: splitting a charge or charging more never yields more remaining budget), push_hard_le_remaining, push_hard_is_exact_meet, merge_greatest_lower_bound / merge_comm / merge_idem / merge_assoc / dominates_merge_iff (the regenerated Merge is the lattice meet of limit vectors with 0 = unlimited as top, and a counter vector is dominated by the merge iff by both arguments), push_soft_le_hard, push_flags_superset, push_implied_flags, inv_initial/inv_preserved/inv_reachable (no hypothesis on amounts), used_lt_hard, "
   "child_within_parent, pop_charges_parent, pop_status, conservation(+_nested) under the explicit no-overflow hypothesis with a proved counterexample without it, due_iff, soft_limit_does_not_kill, "
   "status_truthful, call_keeps_stack_aligned, call_from_root_returns_to_root (mutual induction over every CallContext tree), foreign_panic_pops_before_repanic (threadClose and other non-termination panics: pop, then re-panic), close_handlers_then_status / close_handlers_run_under_limits / close_handler_past_limit_kills (Model.CallCtx now carries the pending to-be-closed handlers of a call: they run in the context being left, before its status is set; tied at Lua level only — no API to push a to-be-closed value from the Go harness). Model/Ctx.lean mirrors runtimecontextmanager.go operation by operation on top of the REGENERATED Generated.Resources (smallerLimit, atLimit, Remove, Merge, Dominates, flag/status constants); Model/CallCtx.lean is Thread.CallContext with the deferred pop and recover explicit. Level B compares the whole context stack (limits, used, status, due, flags of every Parent()) after every operation on a real *rt.Runtime over 36^3 exhaustive boundary histories, random histories incl. API abuse near 2^64 and random CallContext trees; level A re-checks the Spec.Quota relations on the implementation's own trace; Lua legs sweep limits around each generated program's own usage.",
   "Coroutines are outside the model: the context stack is runtime-wide, so a yield inside pcall leaves pcall's frame on top (recorded design-level defect C07-YIELD-IN-PCALL). Millis limits are not modelled.", "6/C07, 14/C07"),
